@@ -91,6 +91,12 @@ Section VerifyBlock.
         end
     end.
 
+  (* VerifyBlock called several times on ONE decoded list object, each time with
+     its own block (height, id): the list is only read, so the session is a map *)
+  Definition verify_session (round : Z) (ps : psid) (vals : option (list addrT))
+             (items : list (Z * sigT)) (blocks : list (Z * bytes)) : list outcome :=
+    map (fun hb => verify_block (fst hb) round (snd hb) ps vals items) blocks.
+
   (* The code before commit ac6da88 of /repo: an item whose signature does not
      recover made IndexOf dereference a nil address.  Kept as a witness of the
      defect that was found with this model (see Proofs: prefix_crashes). *)
@@ -215,3 +221,7 @@ Definition gt_fs_accept (height round : Z) (bid : bytes) (ps : psid) (real : N *
 Definition gt_verify_block (height round : Z) (bid : bytes) (ps : psid)
            (vals : option (list nat)) (items : list (Z * gsig)) : outcome :=
   verify_block gaddr_eqb gt_recover height round bid ps (option_map (map Key) vals) items.
+
+Definition gt_verify_session (round : Z) (ps : psid) (vals : option (list nat))
+           (items : list (Z * gsig)) (blocks : list (Z * bytes)) : list outcome :=
+  verify_session gaddr_eqb gt_recover round ps (option_map (map Key) vals) items blocks.
